@@ -76,6 +76,7 @@ def _bufsizes(rng, n):
 def gen_case(rng, tier, g):
     case = _gen_case(rng, tier, g)
     case['fluent'] = rng.random() < 0.15
+    case['decoy'] = rng.random() < 0.1
     # the host application's petl.config / logging set-up must not matter
     cfg = draw_config(rng, 0.12, exclude=('sort_buffersize', 'failonerror'))
     if cfg:
@@ -367,6 +368,19 @@ def run_case(case):
     if case['cfg'] is not None:
         config.sort_buffersize = case['cfg']
     try:
+        if case.get('decoy'):
+            # an unrelated table sorted earlier in the same process, holding
+            # values of ONE type of which only some pairs can be ordered
+            # (time-zone aware next to naive timestamps): what a comparison
+            # learns there must not carry over
+            probes['decoy-sort-first'] = 1
+            import datetime as _dt
+            aware = _dt.datetime(2021, 1, 1, tzinfo=_dt.timezone.utc)
+            try:
+                list(iter(e.sort([['k'], [aware], [_dt.datetime(2020, 1, 1)],
+                                  [aware]], 'k')))
+            except Exception:
+                pass
         with devices.TempSandbox() as sb:
             td = os.path.join(sb.path, 'td')
             os.mkdir(td)
